@@ -168,6 +168,13 @@ def step (line : String) : String :=
              s!"0:{p.uncompressedLen}:{p.compressedLen}:{p.numValues};0;3;3;{showStatsFields p.stats}"
            if hs.isEmpty then "-" else ",".intercalate hs)
     | _, _ => "bad-op"
+  | ["dictfile", kind, rg, col, file] =>
+    match kind.toNat?, rg.toNat?, col.toNat? with
+    | some kind, some rg, some col =>
+      match dictFile kind rg col (unhex file) with
+      | some f => toHex f
+      | none => "none"
+    | _, _, _ => "bad-op"
   | ["gapfile", pad, file] =>
     -- the same file with `pad` filler bytes before every row group and the footer's offsets shifted
     match pad.toNat?, gapFile (pad.toNat?.getD 0) (unhex file) with
